@@ -558,3 +558,28 @@ def converts(c, src_sub, dst_sub):
     else:
         return False
     return src_sub in src and dst_sub in dst
+
+
+def reach_with_flags(b, starts, cut_edges=(), cut_blocks=()):
+    """Body.reach plus the constant-flag refinement of reach_under: a test of a bool local that - within what is
+    reachable - only ever received one constant (directly or through a `&mut` to it) takes only that edge."""
+    cut_edges = list(cut_edges)
+    live = b.reach(starts, cut_edges=cut_edges, cut_blocks=cut_blocks)
+    flags = [sw for sw in b.switches if sw.kind == 'bool' and sw.on.kind == 'local' and not sw.on.projs]
+    for _ in range(4):
+        extra = []
+        for sw in flags:
+            if sw.bb not in live:
+                continue
+            stores = b.flag_stores(sw.on.key)
+            if not stores:
+                continue
+            vals = set(bool(v) for (bb, v) in stores if bb in live)
+            if len(vals) == 1:
+                keep = set(sw.edges_for(next(iter(vals))))
+                extra += [e for (l, t) in sw.edges for e in [(sw.bb, t)] if e not in keep and e not in cut_edges]
+        if not extra:
+            break
+        cut_edges += extra
+        live = b.reach(starts, cut_edges=cut_edges, cut_blocks=cut_blocks)
+    return live
